@@ -1,13 +1,13 @@
 CONSTANTS
   K = 1
-  MaxNodes = 12
+  MaxNodes = 14
   BaseSet <- AllBases
-  RunCfgSeq <- RunsFp
-  Prods <- KeyProds
-  KISet <- KIAll
+  RunCfgSeq <- RunsEnv
+  Prods <- SibProds
+  KISet <- KIClassic
   EnvWhereSet <- EnvWheres
   SibSeqSet <- SibCover
-  Deviations = {"FingerprintAnyCert"}
+  Deviations = {"SignedSiblingVouches"}
   EmitMin = 9
   EmitFrom = 9
   EmitMod = 1
